@@ -765,6 +765,10 @@ func (interp *Interpreter) cfg(root *node, sc *scope, importPath, pkgName string
 						}
 					}
 				}
+				if isStringElem(dest) {
+					err = dest.cfgErrorf("cannot assign to an element of a string (strings are immutable)")
+					break
+				}
 				if n.anc.kind == constDecl && !src.rval.IsValid() {
 					err = src.cfgErrorf("initializer of constant %s is not a constant", dest.ident)
 					break
@@ -941,6 +945,10 @@ func (interp *Interpreter) cfg(root *node, sc *scope, importPath, pkgName string
 		case incDecStmt:
 			err = check.unaryExpr(n)
 			if err != nil {
+				break
+			}
+			if isStringElem(n.child[0]) {
+				err = n.cfgErrorf("cannot assign to an element of a string (strings are immutable)")
 				break
 			}
 			wireChild(n)
@@ -3195,6 +3203,11 @@ func isFuncField(n *node) bool {
 
 func isMapEntry(n *node) bool {
 	return n.action == aGetIndex && isMap(n.child[0].typ)
+}
+
+// isStringElem returns true if n is the element of a string, which can not be assigned.
+func isStringElem(n *node) bool {
+	return n.kind == indexExpr && len(n.child) > 0 && n.child[0].typ != nil && isString(n.child[0].typ.TypeOf())
 }
 
 func isCall(n *node) bool {
